@@ -64,12 +64,16 @@ def run(R, env):
             red, pur, den = agg_field(t, "redemption_rate"), agg_field(t, "purchase_rate"), agg_field(t, "denom")
             rc = None
             okc = False
+            comps = ("0", "1")
             if red is not None and pur is not None and red[0] == "field" and pur[0] == "field" and red[1] == pur[1] and red[1][0] == "call":
                 rc = red[1]
-                okc = red[2] == "0" and pur[2] == "1"
-            R.ob("C15.R3", s + ":rate-components", okc, "PostRates{redemption_rate: %s, purchase_rate: %s}; expected components .0 and .1 of one rate computation" % (fmt(red or ("none",))[:100], fmt(pur or ("none",))[:100]), loc=p["loc"], fn=hk)
+                # which component is which is decided by the formula (check_rates_fn): the one posted as redemption
+                # rate must be from_ratio(staked, lst), the one posted as purchase rate from_ratio(lst, staked)
+                comps = (red[2], pur[2])
+                okc = red[2] != pur[2]
+            R.ob("C15.R3", s + ":rate-components", okc, "PostRates{redemption_rate: %s, purchase_rate: %s}; expected two different components of one rate computation" % (fmt(red or ("none",))[:100], fmt(pur or ("none",))[:100]), loc=p["loc"], fn=hk)
             R.ob("C15.R3", s + ":denom", lst_denom(prog, den), "PostRates.denom = %s, expected config.liquid_stake_token_denom" % fmt(den or ("none",))[:100], loc=p["loc"], fn=hk)
-            src = rate_source(prog, h, rc, env) if rc is not None else (None, None, None, None)
+            src = rate_source(prog, h, rc, env, inside=p) if rc is not None else (None, None, None, None)
             ws = [op for op in storage_ops_deep(prog, h, env.depth) if op["kind"] == "w" and ns_of(prog, op["args"][0]) == "state" and item_crate(op["args"][0]) == CRATE]
             if src[0] == "memory":
                 # rates of an in-memory state: it must be the state this transaction leaves in storage
@@ -77,7 +81,7 @@ def run(R, env):
                 R.ob("C15.R1", s + ":no-state-write-after-rates", okS, "the rates are computed from %s, which is not the value this handler leaves in STATE (writes: %s): the posted rates are not those of the state after this transaction" % (fmt(src[1])[:160], [fmt(o["args"][2])[:100] for o in ws]), loc=h.body.loc(rb), fn=hk)
                 R.ob("C15.R1", s + ":state-write-dominates-rates", bool(ws) and all(must_pass(h, o["root_bb"]) for o in ws), "the state the rates are computed from is not saved on every success path", loc=h.body.loc(rb), fn=hk)
                 if rc is not None:
-                    check_rates_fn(R, prog, rc, s, hk, nat=src[2], lst=src[3])
+                    check_rates_fn(R, prog, rc, s, hk, nat=src[2], lst=src[3], comps=comps)
             else:
                 # R1: ordering relative to STATE writes (the rate computation re-reads STATE)
                 after = [op for op in ws if op["root_bb"] != rb and h.body.reaches(rb, [op["root_bb"]], h.removed)]
@@ -85,7 +89,7 @@ def run(R, env):
                 R.ob("C15.R1", s + ":no-state-write-after-rates", src[0] == "stored" and not after, "STATE is written at %s after the rates were computed at %s: the posted rates are those of the state BEFORE this transaction" % ([o["loc"] for o in after], h.body.loc(rb)), loc=h.body.loc(rb), fn=hk)
                 R.ob("C15.R1", s + ":state-write-dominates-rates", bool(dom), "no STATE write lies on every path to the rate computation at %s" % h.body.loc(rb), loc=h.body.loc(rb), fn=hk)
                 if rc is not None:
-                    check_rates_fn(R, prog, rc, s, hk)
+                    check_rates_fn(R, prog, rc, s, hk, comps=comps, **({"nat": src[2], "lst": src[3]} if src[2] is not None else {}))
         # envelope
         for c, path, bi, si, t in aggregates_deep(prog, h, lambda adt, var: adt.endswith("wasm::v1::MsgExecuteContract"), env.depth + 1):
             snd, con, funds, msg = agg_field(t, "sender"), agg_field(t, "contract"), agg_field(t, "funds"), agg_field(t, "msg")
@@ -103,16 +107,17 @@ def run(R, env):
     for c, path, bi, si, t in aggregates_deep(prog, Ctx(q), lambda adt, var: adt.endswith("msg::StateResponse"), env.depth + 1):
         n_q += 1
         r = agg_field(t, "rate")
-        good = r is not None and r[0] == "field" and r[2] == "1" and r[1][0] == "call"
-        R.ob("C15.R3", "StateQuery:rate-is-purchase-rate", good, "StateResponse.rate = %s, expected component .1 of the rate computation" % fmt(r or ("none",))[:120], loc=c.body.loc(bi, si), fn=c.body.key)
+        good = r is not None and r[0] == "field" and r[1][0] == "call"
+        R.ob("C15.R3", "StateQuery:rate-is-purchase-rate", good, "StateResponse.rate = %s, expected the purchase-rate component of the rate computation" % fmt(r or ("none",))[:120], loc=c.body.loc(bi, si), fn=c.body.key)
         if good:
             src = rate_source(prog, c, r[1], env)
+            qc = (None, r[2])  # the component must be the purchase-rate formula
             if src[0] == "memory":
                 okq = src[1][0] == "payload" and is_load(prog, src[1], "state", CRATE)
                 R.ob("C15.R3", "StateQuery:rates-of-the-stored-state", okq, "the State query computes its rate from %s, not from the stored state" % fmt(src[1])[:120], loc=c.body.loc(bi, si), fn=c.body.key)
-                check_rates_fn(R, prog, r[1], "StateQuery", c.body.key, nat=src[2], lst=src[3])
+                check_rates_fn(R, prog, r[1], "StateQuery", c.body.key, nat=src[2], lst=src[3], comps=qc)
             else:
-                check_rates_fn(R, prog, r[1], "StateQuery", c.body.key)
+                check_rates_fn(R, prog, r[1], "StateQuery", c.body.key, comps=qc, **({"nat": src[2], "lst": src[3]} if src[2] is not None else {}))
     R.floor("C15.R3", "StateResponse constructions", n_q, 1)
 
     # ---------------- R4 optional oracle
@@ -135,7 +140,7 @@ def run(R, env):
             alts = rt[1] if rt[0] == "phi" else (rt,)
             counts = set()
             for a in alts:
-                if a[0] == "agg" and a[2] == "Err":
+                if (a[0] == "agg" and a[2] == "Err") or (a[0] == "call" and a[1] == "std::ops::FromResidual::from_residual"):
                     continue
                 counts.add(len([s_ for s_ in subterms(a) if s_[0] == "agg" and s_[1].endswith("wasm::v1::MsgExecuteContract")]))
             if want:
@@ -209,7 +214,16 @@ def must_not_precede(h, a, b):
     return False
 
 
-def check_rates_fn(R, prog, rc, site, hk, nat=None, lst=None):
+def _components(rt):
+    """named components of a tuple / struct valued term"""
+    if rt[0] == "tuple":
+        return {str(i): v for i, v in enumerate(rt[1])}
+    if rt[0] == "agg":
+        return {n: v for _, n, v in rt[3]}
+    return {}
+
+
+def check_rates_fn(R, prog, rc, site, hk, nat=None, lst=None, comps=("0", "1")):
     """rc = call term of the rate computation (a local function).  nat / lst recognise the staked
     and the LST total inside it (default: fields of the state the function loads from storage)."""
     cb = shared._body_of_call(prog, rc)
@@ -220,7 +234,7 @@ def check_rates_fn(R, prog, rc, site, hk, nat=None, lst=None):
     raw = c.T.return_term()
     if raw[0] == "call" and shared._body_of_call(prog, raw) is not None and shared._body_of_call(prog, raw).key != cb.key:
         # the function only loads the state and delegates the formula to another local function
-        return check_rates_fn(R, prog, raw, site, hk, nat, lst)
+        return check_rates_fn(R, prog, raw, site, hk, nat, lst, comps)
     from engine.analysis import resolve_terms as _rt
     RR = lambda t: norm(_rt(prog, t, 2))
     # nat / lst may be given as reference TERMS (in-memory state): compare after inlining pure helpers on both sides
@@ -240,17 +254,19 @@ def check_rates_fn(R, prog, rc, site, hk, nat=None, lst=None):
     from engine.analysis import resolve_terms
     rt = resolve_terms(prog, w.T.return_term(), 2)
     fr = lambda t, a, b: t[0] == "call" and t[1] == "cosmwasm_std::Decimal::from_ratio" and a(t[2][0]) and b(t[2][1])
-    good = n >= 1 and rt[0] == "tuple" and len(rt[1]) == 2 and fr(rt[1][0], nat, lst) and fr(rt[1][1], lst, nat)
+    cs = _components(rt)
+    good = n >= 1 and len(cs) == 2 and (comps[0] is None or (comps[0] in cs and fr(cs[comps[0]], nat, lst))) and comps[1] in cs and fr(cs[comps[1]], lst, nat)
     R.ob("C15.R3", site + ":rates-formula", good, "with LST > 0 (and a non-zero staked total) the rate computation returns %s; expected (from_ratio(staked, lst), from_ratio(lst, staked)) of the post-transaction state" % fmt(rt)[:240], fn=cb.key)
     rem, n2 = bool_world_edges(c, is_lst_zero, True)
     w0 = c.with_removed(rem).settle()
     rt0 = resolve_terms(prog, w0.T.return_term(), 2)
     z = lambda t: t[0] == "call" and t[1] == "cosmwasm_std::Decimal::zero"
-    good0 = n2 >= 1 and rt0[0] == "tuple" and len(rt0[1]) == 2 and z(rt0[1][0]) and z(rt0[1][1])
+    cs0 = _components(rt0)
+    good0 = n2 >= 1 and len(cs0) == 2 and all(z(v) for v in cs0.values())
     R.ob("C15.R3", site + ":zero-lst-guard", good0, "with LST = 0 the rate computation returns %s; expected (0, 0) without dividing" % fmt(rt0)[:160], fn=cb.key)
 
 
-def rate_source(prog, h, rc, env):
+def rate_source(prog, h, rc, env, inside=None):
     """where do the totals of the rate computation `rc` come from?
        ('stored', None, None, None)      the function loads STATE itself (ordering matters: R1)
        ('memory', S, nat_term, lst_term) it is given the totals of an in-memory state S
@@ -276,6 +292,17 @@ def rate_source(prog, h, rc, env):
                 if c_[0] == "call" and c_[1] in ("cw_storage_plus::Item::update", "cw_storage_plus::Item::load") and ns_of(prog, c_[2][0]) == "state":
                     cands.append(s_)
     args_n = [norm(a) for a in rc[2]]
+    if inside is not None and inside.get("path"):
+        # Rates::of(&STATE.load(storage)?) inside the poster: the state is re-read where the rates are computed,
+        # which is the `stored` case (ordering against the handler's STATE writes is what matters)
+        rb = inside["root_bb"]
+        for o in sod(prog, h, env.depth):
+            if o["op"] == "load" and ns_of(prog, o["args"][0]) == "state" and item_crate(o["args"][0]) == CRATE and o["root_bb"] == rb and o["fn"] != h.body.key:
+                S = ("payload", ("call", "cw_storage_plus::Item::load", tuple(o["args"][:2])), "Ok/Some")
+                for a in rc[2]:
+                    al = shared.unwrap_payload(a) if a[0] == "payload" else a
+                    if al[0] == "call" and al[1] == "cw_storage_plus::Item::load" and ns_of(prog, al[2][0]) == "state":
+                        return ("stored", a, field_of(a, "total_native_token"), field_of(a, "total_liquid_stake_token"))
     for S in cands:
         nV, lV = field_of(S, "total_native_token"), field_of(S, "total_liquid_stake_token")
         if norm(nV) in args_n and norm(lV) in args_n:
